@@ -259,6 +259,11 @@ pub fn check_fault(case: &FaultCase, prepared: &[u8]) -> Check {
 pub struct GenFault {
     pub seq: SeqCase,
     pub plan: Plan,
+    /// When present, the fault index is this fraction (in 1/65536ths) of the
+    /// number of calls of that kind the fault-free run of `seq` issues, so
+    /// that the fault always lands inside the run; `plan.k` is then ignored.
+    #[serde(default)]
+    pub frac: Option<u16>,
 }
 
 fn run_generated(seq: &SeqCase, plan: Option<Plan>) -> Result<(Vec<Option<Result<Snapshot, String>>>, bool, Counts), Fail> {
@@ -423,7 +428,13 @@ fn mirror(p: &mut Pkg, shadow: &Run, op: &OpSeed) -> std::io::Result<()> {
 }
 
 pub fn check_generated(g: &GenFault) -> Result<bool, Fail> {
-    let (want, _, _) = run_generated(&g.seq, None)?;
+    let (want, _, counts) = run_generated(&g.seq, None)?;
+    let mut plan = g.plan;
+    if let Some(f) = g.frac {
+        let n = match plan.kind { Kind::Write => counts.writes, Kind::Read => counts.reads, Kind::Seek => counts.seeks };
+        plan.k = (f as u64 * n) >> 16;
+    }
+    let g = &GenFault { seq: g.seq.clone(), plan, frac: None };
     let (got, hit, _) = run_generated(&g.seq, Some(g.plan))?;
     for (j, p) in got.iter().enumerate() {
         if let Some(res) = p {
@@ -447,7 +458,7 @@ pub fn check_generated(g: &GenFault) -> Result<bool, Fail> {
 pub fn run(ctx: &Ctx) -> Report {
     let mut rep = Report::new(
         "fault_enumeration",
-        "three fixed scripts — (a) create, create table, batch insert with strings, 20,000-byte stream, summary change, flush, more inserts / update / delete / second table, flush, small stream, drop table, into_inner; (b) open of a prepared package whose pool holds 3,200 strings and whose table streams exceed 8 KiB, insert, update, flush, delete, into_inner; (c) two integer tables grown to exactly 4,096 and 8,192 bytes, one row more, and back, with a flush after each size — and, for each, EVERY index k of the write, read and seek calls the fault-free run issues to the medium, under a transient fault (only call k fails) and a persistent one (call k and all later calls of that kind fail); the thorough tier adds generated scripts from the C01 profile under generated plans. Oracle: whenever a flush or into_inner returns Ok after calls that all returned Ok, the bytes on the medium at that instant are reopened on a clean medium and must equal the fault-free run's state at that point; no plan may cause a panic. Non-trivial = the plan's fault was actually hit; distinct by (script, kind, k, mode).",
+        "three fixed scripts — (a) create, create table, batch insert with strings, 20,000-byte stream, summary change, flush, more inserts / update / delete / second table, flush, small stream, drop table, into_inner; (b) open of a prepared package whose pool holds 3,200 strings and whose table streams exceed 8 KiB, insert, update, flush, delete, into_inner; (c) two integer tables grown to exactly 4,096 and 8,192 bytes, one row more, and back, with a flush after each size — and, for each, EVERY index k of the write, read and seek calls the fault-free run issues to the medium, under a transient fault (only call k fails) and a persistent one (call k and all later calls of that kind fail); both tiers add generated scripts from the C01 profile (12,000 quick / 200,000 thorough) under generated plans whose fault index is a generated fraction of the calls the script's own fault-free run issues, so that every plan lands inside the run. Oracle: whenever a flush or into_inner returns Ok after calls that all returned Ok, the bytes on the medium at that instant are reopened on a clean medium and must equal the fault-free run's state at that point; no plan may cause a panic. Non-trivial = the plan's fault was actually hit; distinct by (script, kind, k, mode).",
     );
     rep.assumptions.push("dropping a Package without flush / into_inner promises nothing (Drop cannot report), so scripts end in an explicit into_inner; the harness flushes every StreamWriter explicitly".into());
     let mut st = Stats::new();
@@ -486,12 +497,13 @@ pub fn run(ctx: &Ctx) -> Report {
         }, &mut st);
         rep.push(v);
     }
-    if ctx.tier == crate::engine::Tier::Thorough {
+    {
+        let n = if ctx.tier == crate::engine::Tier::Thorough { 200_000 } else { 12_000 };
         let v = crate::engine::search(
             ctx,
             "generated",
-            60_000,
-            || (seq::seq_case(W_PERSIST, 10), prop_oneof![Just(Kind::Write), Just(Kind::Read), Just(Kind::Seek)], 0u64..4000, any::<bool>()).prop_map(|(seq, kind, k, persistent)| GenFault { seq, plan: Plan { kind, k, persistent } }),
+            n,
+            || (seq::seq_case(W_PERSIST, 10), prop_oneof![3 => Just(Kind::Write), 1 => Just(Kind::Read), 2 => Just(Kind::Seek)], any::<u16>(), any::<bool>()).prop_map(|(seq, kind, f, persistent)| GenFault { seq, plan: Plan { kind, k: 0, persistent }, frac: Some(f) }),
             |g: &GenFault, st| {
                 st.eval();
                 let hit = check_generated(g)?;
